@@ -960,8 +960,8 @@ fn main() {
         ctx.finish();
     }
 
-    let n_mem = ctx.pick(1000usize, 21_000);
-    let n_disk = ctx.pick(400usize, 9_000);
+    let n_mem = ctx.pick(2500usize, 21_000);
+    let n_disk = ctx.pick(1000usize, 9_000);
     let threads = 16usize;
     let dir_histories = directed();
     // plan: directed histories first, then memory and disk histories interleaved so that
